@@ -391,6 +391,88 @@ macro_rules! g_frame1 {
     };
 }
 
+/// C15, mixed directions on one instance: after enc(x) the call dec(x) (same block value), and after dec(y) the call
+/// enc(y), give what a pristine instance with the same state gives -- catches per-instance or global memoisation keyed on
+/// too little; the instance bytes are unchanged afterwards.
+#[allow(unused_macros)]
+macro_rules! g_mixed {
+    ($name:ident, $ty:ty, $bs:expr, $valid:expr $(, stubs: [$(($o:path, $r:path)),*])?) => {
+        verif_harness! {
+            name: $name,
+            bytes: core::mem::size_of::<$ty>() + 2 * $bs,
+            unwind: 5000,
+            $(stubs: [$(($o, $r)),*],)?
+            prop: |inp| {
+                const S: usize = core::mem::size_of::<$ty>();
+                let valid: fn(&[u8]) -> bool = $valid;
+                vassume!(valid(&inp[..S]));
+                let mut a = core::mem::MaybeUninit::<$ty>::uninit();
+                generic::fill(&mut a, &inp[..S]);
+                let mut fresh = core::mem::MaybeUninit::<$ty>::uninit();
+                generic::fill(&mut fresh, &inp[..S]);
+                let x: [u8; $bs] = take(&inp[..], S);
+                let y: [u8; $bs] = take(&inp[..], S + $bs);
+                // reference results on the pristine instance, one call each on its own copy of the state
+                let mut rx: cipher::Block<$ty> = x.into();
+                g_dir!(dec, block, generic::as_ref(&fresh), &mut rx);
+                let mut fresh2 = core::mem::MaybeUninit::<$ty>::uninit();
+                generic::fill(&mut fresh2, &inp[..S]);
+                let mut ry: cipher::Block<$ty> = y.into();
+                g_dir!(enc, block, generic::as_ref(&fresh2), &mut ry);
+                // history on `a`: enc(x); dec(x); dec(y); enc(y)
+                let mut t: cipher::Block<$ty> = x.into();
+                g_dir!(enc, block, generic::as_ref(&a), &mut t);
+                let mut dx: cipher::Block<$ty> = x.into();
+                g_dir!(dec, block, generic::as_ref(&a), &mut dx);
+                vcheck!(dx == rx);
+                let mut t2: cipher::Block<$ty> = y.into();
+                g_dir!(dec, block, generic::as_ref(&a), &mut t2);
+                let mut ey: cipher::Block<$ty> = y.into();
+                g_dir!(enc, block, generic::as_ref(&a), &mut ey);
+                vcheck!(ey == ry);
+                let mut i = 0;
+                while i < S {
+                    vcheck!(generic::peek(&a, i) == inp[i]);
+                    i += 1;
+                }
+                Some(true)
+            }
+        }
+    };
+}
+
+/// C15, construction history: new(k2) in a fresh process, then new(k1), then new(k2) again yields the same state as the
+/// first time -- catches process-wide caches of key schedules keyed on too little.  Heavy key schedules may be replaced
+/// by a cheap key-dependent stub: the subject is what the constructor does around the schedule.
+#[allow(unused_macros)]
+macro_rules! g_ctor_history {
+    ($name:ident, $ty:ty, $klen:expr, $exempt:expr $(, stubs: [$(($o:path, $r:path)),*])?) => {
+        verif_harness! {
+            name: $name,
+            bytes: 2 * $klen,
+            unwind: 5000,
+            $(stubs: [$(($o, $r)),*],)?
+            prop: |inp| {
+                let k1: [u8; $klen] = take(&inp[..], 0);
+                let k2: [u8; $klen] = take(&inp[..], $klen);
+                let exempt: fn(usize) -> bool = $exempt;
+                let first = core::mem::MaybeUninit::new(<$ty as cipher::KeyInit>::new(&k2.into()));
+                let other = core::mem::MaybeUninit::new(<$ty as cipher::KeyInit>::new(&k1.into()));
+                let again = core::mem::MaybeUninit::new(<$ty as cipher::KeyInit>::new(&k2.into()));
+                let _ = &other;
+                let mut i = 0;
+                while i < core::mem::size_of::<$ty>() {
+                    if !exempt(i) {
+                        vcheck!(generic::peek(&first, i) == generic::peek(&again, i));
+                    }
+                    i += 1;
+                }
+                Some(true)
+            }
+        }
+    };
+}
+
 /// C04, one direction, NB blocks available, n symbolic in 0..=NB: multi-block in-place, multi-block b2b (with the
 /// separate input unchanged and the output blocks >= n untouched) and single-block b2b all equal the in-place
 /// single-block call applied to each block.
